@@ -24,7 +24,7 @@ pub struct Skin {
   pub rust: bool,
 }
 
-pub const SKINS: [Skin; 9] = [
+pub const SKINS: [Skin; 11] = [
   Skin { id: 0, python: false, block: false, wrap: false, crlf: false, idfmt: 0, c: false, rust: false },
   Skin { id: 1, python: false, block: true, wrap: false, crlf: false, idfmt: 1, c: false, rust: false },
   Skin { id: 2, python: false, block: false, wrap: true, crlf: false, idfmt: 2, c: false, rust: false },
@@ -34,6 +34,8 @@ pub const SKINS: [Skin; 9] = [
   Skin { id: 6, python: false, block: false, wrap: true, crlf: false, idfmt: 0, c: true, rust: false },
   Skin { id: 7, python: false, block: false, wrap: true, crlf: false, idfmt: 0, c: false, rust: true },
   Skin { id: 8, python: false, block: true, wrap: true, crlf: false, idfmt: 1, c: false, rust: true },
+  Skin { id: 9, python: false, block: false, wrap: false, crlf: false, idfmt: 3, c: false, rust: false },
+  Skin { id: 10, python: false, block: true, wrap: true, crlf: false, idfmt: 3, c: false, rust: false },
 ];
 
 fn ids_text(ids: &Value, skin: &Skin) -> Option<String> {
@@ -47,8 +49,12 @@ fn ids_text(ids: &Value, skin: &Skin) -> Option<String> {
     let list = match skin.idfmt {
       0 => v.join(", "),
       1 => v.join(","),
+      // the list is followed by an explanation inside the comment: an id ends at the first white space
+      3 => format!("{} -- see ticket 12", v.join(", ")),
       _ => format!(" {}", v.join(" ,  ")),
     };
+    // (with idfmt 3 a block comment ends in `**/`: the terminator is no part of the last id either)
+    let close = if skin.idfmt == 3 && skin.block { " **/" } else { close };
     Some(format!("{open}ast-grep-ignore:{}{list}{close}", if skin.idfmt == 1 { "" } else { " " }))
   }
 }
@@ -166,7 +172,7 @@ pub fn drive(vectors: &str, out: &str, thorough: bool) {
   let results = cli::par_map(chunk, 12, |k, layout| {
     let i = base + k;
     // every layout in its plain form and in one more skin, in turn
-    let skins: Vec<Skin> = if i % 9 == 0 { vec![SKINS[0]] } else { vec![SKINS[0], SKINS[i % 9]] };
+    let skins: Vec<Skin> = if i % 11 == 0 { vec![SKINS[0]] } else { vec![SKINS[0], SKINS[i % 11]] };
     let mut recs = vec![];
     for skin in &skins {
       let (src, off) = render(layout, skin);
